@@ -903,3 +903,205 @@ Proof.
     + inversion Hz. subst z. exact IH.
 Qed.
 End AggStep.
+
+(* ================================================================ the invariant holds along every contract-abiding event list *)
+Theorem closed_inv : forall c, wf_config c = true -> forall evs,
+  wf_events c evs = true -> (forall x, In x (recs evs) -> obs_ok c (snd x)) ->
+  forall f, spec_flow c evs = Some f -> closed c evs f.
+Proof.
+  intros c WFC evs. induction evs as [|e evs IH] using rev_ind; intros WE OBS f SF; [discriminate|].
+  rewrite wf_events_snoc in WE. apply andb_prop in WE. destruct WE as [W1 W2].
+  assert (OBS1 : forall x, In x (recs evs) -> obs_ok c (snd x)).
+  { intros x Hx. apply OBS. rewrite recs_app. apply in_or_app. left. exact Hx. }
+  rewrite spec_flow_snoc in SF. destruct (spec_flow c evs) as [f0|] eqn:E.
+  - specialize (IH W1 OBS1 f0 eq_refl). destruct e as [fs fd o|]; cbn [spec_step] in SF; inversion SF; subst f.
+    + apply closed_agg; try assumption. apply (OBS (fs, fd, o)). rewrite recs_app. apply in_or_app. right. left. reflexivity.
+    + apply closed_reset. exact IH.
+  - destruct e as [fs fd o|]; cbn [spec_step] in SF; [|discriminate]. inversion SF; subst f.
+    destruct (spec_flow_none c evs E) as [R1 R2].
+    apply closed_create; try assumption.
+    apply (OBS (fs, fd, o)). rewrite recs_app. apply in_or_app. right. left. reflexivity.
+Qed.
+
+(* ================================================================ histories *)
+Lemma events_of_app : forall c h1 h2 k, events_of c (h1 ++ h2) k = events_of c h1 k ++ events_of c h2 k.
+Proof.
+  intros c h1 h2 k. induction h1 as [|o h1 IH]; [reflexivity|]. cbn [app events_of].
+  destruct o as [r|k0].
+  - destruct (rec_key r) as [k'|]; [destruct (key_eqb k' k)|]; rewrite IH; reflexivity.
+  - destruct (key_eqb k0 k); rewrite IH; reflexivity.
+Qed.
+
+Lemma obs_of_ok : forall c r, wf_config c = true -> obs_ok c (obs_of c r).
+Proof.
+  intros c r WF. pose proof (wf_config_facts c WF) as W.
+  destruct (idx_facts _ _ (wf_has_oct c W)) as [A1 A2]. destruct (idx_facts _ _ (wf_has_roct c W)) as [B1 B2].
+  unfold obs_ok, stat, oct_pos, roct_pos, obs_of, nstats. cbn [o_stat o_oct o_roct].
+  split; [apply map_length|].
+  split.
+  - rewrite (nth_indep _ 0 (vu64 r "")) by (rewrite map_length; exact A1).
+    rewrite (map_nth (vu64 r)), A2. reflexivity.
+  - rewrite (nth_indep _ 0 (vu64 r "")) by (rewrite map_length; exact B1).
+    rewrite (map_nth (vu64 r)), B2. reflexivity.
+Qed.
+
+Lemma events_obs_ok : forall c h k, wf_config c = true ->
+  forall x, In x (recs (events_of c h k)) -> obs_ok c (snd x).
+Proof.
+  intros c h k WF. induction h as [|o h IH]; intros x Hx; [contradiction|]. cbn [events_of] in Hx.
+  destruct o as [r|k0].
+  - destruct (rec_key r) as [k'|]; [|exact (IH x Hx)]. destruct (key_eqb k' k); [|exact (IH x Hx)].
+    destruct Hx as [Hx|Hx]; [|exact (IH x Hx)]. subst x. apply obs_of_ok. exact WF.
+  - destruct (key_eqb k0 k); [|exact (IH x Hx)]. exact (IH x Hx).
+Qed.
+
+Lemma in_add_key : forall seen k' k, In k (add_key seen k') <-> In k seen \/ k = k'.
+Proof.
+  intros seen k' k. unfold add_key. destruct (existsb (key_eqb k') seen) eqn:E.
+  - split; [left; assumption|]. intros [H|H]; [exact H|]. subst.
+    apply existsb_exists in E. destruct E as (z & Z1 & Z2). apply key_eqb_eq in Z2. subst. exact Z1.
+  - rewrite in_app_iff. cbn [In]. split; intros [H|H]; auto. destruct H as [H|[]]. right. symmetry. exact H.
+Qed.
+
+Lemma flow_keys_snoc : forall h o, flow_keys (h ++ [o]) =
+  match o with
+  | OpRec r => match rec_key r with Some k => add_key (flow_keys h) k | None => flow_keys h end
+  | OpReset _ => flow_keys h
+  end.
+Proof. intros. unfold flow_keys. rewrite fold_left_app. reflexivity. Qed.
+
+(* a 5-tuple is among the flow keys iff the history holds a record of it *)
+Lemma flow_keys_in : forall c h k, In k (flow_keys h) <-> recs (events_of c h k) <> [].
+Proof.
+  intros c h k. induction h as [|o h IH] using rev_ind; [cbn; tauto|].
+  rewrite flow_keys_snoc, events_of_app, recs_app. destruct o as [r|k0]; cbn [events_of].
+  - destruct (rec_key r) as [k'|].
+    + rewrite in_add_key, IH. destruct (key_eqb k' k) eqn:E.
+      * apply key_eqb_eq in E. subst k'. cbn [recs flat_map ev_rec app].
+        split; [intros _ H; apply app_eq_nil in H; destruct H; discriminate | intros _; right; reflexivity].
+      * apply key_eqb_neq in E. cbn [recs flat_map]. rewrite app_nil_r.
+        split; [intros [H|H]; [exact H | congruence] | intros H; left; exact H].
+    + cbn [recs flat_map]. rewrite app_nil_r. exact IH.
+  - destruct (key_eqb k0 k); cbn [recs flat_map ev_rec app]; rewrite app_nil_r; exact IH.
+Qed.
+
+Lemma no_recs_wf : forall c evs, recs evs = [] -> wf_events c evs = true.
+Proof.
+  intros c evs. induction evs as [|e evs IH] using rev_ind; intros H; [reflexivity|].
+  rewrite recs_app in H. apply app_eq_nil in H. destruct H as [H1 H2].
+  rewrite wf_events_snoc, (IH H1). destruct e; [discriminate | reflexivity].
+Qed.
+
+Lemma wf_history_events : forall c h k, wf_history c h = true -> wf_events c (events_of c h k) = true.
+Proof.
+  intros c h k H. unfold wf_history in H. apply andb_prop in H. destruct H as [_ H].
+  unfold contract_history in H. rewrite forallb_forall in H.
+  destruct (recs (events_of c h k)) eqn:E.
+  - apply no_recs_wf. exact E.
+  - apply H. apply (flow_keys_in c). rewrite E. discriminate.
+Qed.
+Lemma wf_history_typed : forall c h, wf_history c h = true -> typed_history c h = true.
+Proof. intros c h H. unfold wf_history in H. apply andb_prop in H. apply H. Qed.
+
+(* the closed forms hold of the aggregated record of every flow of a contract-abiding history *)
+Theorem history_closed : forall c h k f,
+  wf_config c = true -> wf_history c h = true ->
+  absf c (lookup (run c h) k) = Some f -> closed c (events_of c h k) f.
+Proof.
+  intros c h k f WF WH A.
+  rewrite (aggregation_refinement c h k WF (wf_history_typed c h WH)) in A.
+  apply (closed_inv c WF (events_of c h k) (wf_history_events c h k WH) (events_obs_ok c h k WF) f A).
+Qed.
+
+(* ================================================================ exactly one flow record per distinct 5-tuple *)
+Definition keys (m : flows) : list key := map fst m.
+Definition upd_shape (m m' : flows) (k : key) : Prop := m' = m \/ exists fl, m' = update m k fl.
+
+Lemma lift_status_shape : forall A m (o : ares A) (kk : A -> flows * status) k,
+  (forall a, upd_shape m (fst (kk a)) k) -> upd_shape m (fst (lift_status m o kk)) k.
+Proof. intros A m o kk k H. destruct o; cbn [lift_status fst]; try (left; reflexivity). apply H. Qed.
+Lemma agg_into_shape : forall c m k fl r fs fd, upd_shape m (fst (agg_into c m k fl r fs fd)) k.
+Proof.
+  intros. unfold agg_into. destruct (aggregate_records c r (fl_rec fl) fs fd); cbn [fst];
+    try (left; reflexivity); right; eexists; reflexivity.
+Qed.
+Lemma add_or_update_shape : forall c m k r v4, upd_shape m (fst (add_or_update c m k r v4)) k.
+Proof.
+  intros. unfold add_or_update.
+  apply lift_status_shape. intros ft. apply lift_status_shape. intros corr.
+  destruct (lookup m k) as [fl|].
+  - destruct corr; [|apply agg_into_shape].
+    apply lift_status_shape. intros need. apply lift_status_shape. intros fl1.
+    apply lift_status_shape. intros src. apply agg_into_shape.
+  - apply lift_status_shape. intros src. apply lift_status_shape. intros r2.
+    cbn [fst]. right. eexists. reflexivity.
+Qed.
+Lemma step_shape : forall c m o, fst (step c m o) = m \/ exists k fl, fst (step c m o) = update m k fl.
+Proof.
+  intros c m [r|k]; cbn [step].
+  - destruct (flow_key_of r) as [kv| | |]; cbn [lift_status fst]; try (left; reflexivity).
+    destruct (add_or_update_shape c m (fst kv) r (snd kv)) as [H|[fl H]]; [left; exact H|].
+    right. exists (fst kv), fl. exact H.
+  - unfold reset_flow. destruct (lookup m k) as [fl|]; [|left; reflexivity].
+    destruct (reset_stats c (fl_rec fl)); cbn [fst]; try (left; reflexivity); right; eexists; eexists; reflexivity.
+Qed.
+
+Lemma keys_update : forall m k f,
+  keys (update m k f) = match lookup m k with Some _ => keys m | None => keys m ++ [k] end.
+Proof.
+  induction m as [|[k' f'] m IH]; intros k f; [reflexivity|]. cbn [update lookup].
+  destruct (key_eqb k' k); [reflexivity|]. cbn [keys map fst]. fold (keys (update m k f)) (keys m).
+  rewrite IH. destruct (lookup m k); reflexivity.
+Qed.
+Lemma lookup_in_keys : forall m k, lookup m k <> None <-> In k (keys m).
+Proof.
+  induction m as [|[k' f'] m IH]; intros k; cbn [lookup keys map fst In]; [tauto|].
+  destruct (key_eqb k' k) eqn:E.
+  - apply key_eqb_eq in E. subst. split; [intros _; left; reflexivity | intros _; discriminate].
+  - apply key_eqb_neq in E. fold (keys m). rewrite IH. split; [intros H; right; exact H | intros [H|H]; [contradiction | exact H]].
+Qed.
+Lemma nodup_snoc : forall (l : list key) k, NoDup l -> ~ In k l -> NoDup (l ++ [k]).
+Proof.
+  intros l k H1 H2. apply (Permutation_NoDup (Permutation_cons_append l k)). constructor; assumption.
+Qed.
+
+Lemma run_snoc : forall c h o, run c (h ++ [o]) = fst (step c (run c h) o).
+Proof. intros. unfold run. rewrite fold_left_app. reflexivity. Qed.
+
+Lemma run_keys_nodup : forall c h, NoDup (keys (run c h)).
+Proof.
+  intros c h. induction h as [|o h IH] using rev_ind; [constructor|].
+  rewrite run_snoc. destruct (step_shape c (run c h) o) as [H|(k & fl & H)]; rewrite H; [exact IH|].
+  rewrite keys_update. destruct (lookup (run c h) k) eqn:E; [exact IH|].
+  apply nodup_snoc; [exact IH|]. intro HI. apply lookup_in_keys in HI. contradiction.
+Qed.
+Lemma flow_keys_nodup : forall h, NoDup (flow_keys h).
+Proof.
+  induction h as [|o h IH] using rev_ind; [constructor|]. rewrite flow_keys_snoc.
+  destruct o as [r|k0]; [|exact IH]. destruct (rec_key r) as [k|]; [|exact IH].
+  unfold add_key. destruct (existsb (key_eqb k) (flow_keys h)) eqn:E; [exact IH|].
+  apply nodup_snoc; [exact IH|]. intro HI.
+  assert (X : existsb (key_eqb k) (flow_keys h) = true).
+  { apply existsb_exists. exists k. split; [exact HI | apply key_eqb_refl]. }
+  congruence.
+Qed.
+
+(* a flow record exists for k iff the history holds a record with 5-tuple k *)
+Theorem flow_exists_iff : forall c h k, wf_config c = true -> typed_history c h = true ->
+  (lookup (run c h) k <> None <-> In k (flow_keys h)).
+Proof.
+  intros c h k WF TY. rewrite (flow_keys_in c).
+  pose proof (aggregation_refinement c h k WF TY) as R.
+  split.
+  - intros H E. apply spec_flow_some with (c := c) in E. rewrite E in R.
+    destruct (lookup (run c h) k); [discriminate | contradiction].
+  - intros H E. rewrite E in R. cbn in R. symmetry in R. apply spec_flow_none in R. destruct R. contradiction.
+Qed.
+
+Theorem flow_count : forall c h, wf_config c = true -> typed_history c h = true ->
+  length (run c h) = length (flow_keys h).
+Proof.
+  intros c h WF TY. rewrite <- (map_length fst (run c h)). fold (keys (run c h)).
+  apply Permutation_length. apply NoDup_Permutation; [apply run_keys_nodup | apply flow_keys_nodup|].
+  intros k. rewrite <- lookup_in_keys. apply flow_exists_iff; assumption.
+Qed.
